@@ -2216,9 +2216,19 @@ class Exec:
             if isinstance(o, HRec) and self.const_str(idx) is not None:
                 o.items[self.const_str(idx)] = v
                 return
-            if isinstance(o, HDict) and isinstance(idx, SV) and idx.kind in ("str",) and isinstance(v, SV):
-                o.arr = z3.Store(o.arr, idx.term, ops.to_val(v))
-                o.dom = z3.Store(o.dom, idx.term, True)
+            if isinstance(o, HRec) and not o.items and isinstance(idx, SV) and idx.kind == "str" and isinstance(v, SV):
+                # an empty `{}` that receives a symbolic key becomes a str-keyed dict with an empty domain
+                arr = z3.K(z3.StringSort(), Val.NoneV)
+                dom = z3.K(z3.StringSort(), z3.BoolVal(False))
+                nd = HDict(z3.Store(arr, idx.term, ops.to_val(v)), z3.Store(dom, idx.term, True))
+                self.heap[base.oid] = nd
+                return
+            if isinstance(o, HDict) and isinstance(idx, SV) and idx.kind in ("str", "val") and isinstance(v, SV):
+                if idx.kind == "val" and self.feasible(z3.Not(ops.tag_is(idx, "str"))):
+                    raise OutsideSubset("dict store with a key that may not be a string (the dict model is str-keyed)")
+                key = ops.as_str(idx)
+                o.arr = z3.Store(o.arr, key, ops.to_val(v))
+                o.dom = z3.Store(o.dom, key, True)
                 return
             if isinstance(o, HList) and isinstance(idx, SV) and idx.kind == "int":
                 ln = z3.Length(o.seq)
